@@ -302,6 +302,32 @@ CLAIMED["C01"] = {
     "design_ref": "DESIGN.md §5 C01, §9.1",
 }
 
+# clauses added after the texts above were written (seeded rounds 6-8 and the triage of the agents' baseline observations); appended to the
+# level text of each property so that MANIFEST.json names every rule family a check runs (details: DESIGN.md §9.1, §9.2)
+ADDED = {
+    "C01": "Also: every handler that looks at an operand copies it out of a field/element view first (view-read).",
+    "C02": "Also: no run-time site builds a boxed present optional (including Option::map(Box::new) payloads); handlers copy operands out of views.",
+    "C03": "Also: a block scope never starts from the return status another arm ended with (return-scope fresh-status).",
+    "C04": "Also: the arguments of a trace/log call borrow nothing that `run` holds; the index unit of string built-ins (index-unit).",
+    "C05": "Also: every left shift of a program integer is shifted back and compared (exact-shift); `%` and `/` are evaluated at (MIN, -1) of each signed "
+           "kind (extremes: `%` must yield 0, `/` must stop).",
+    "C06": "Also: fold width and the text rule of Number::negate; exact-shift on both towers; the folder's signed remainder tests a divisor of -1 (exact-rem).",
+    "C07": "Also: the capture depth is raised only by nodes that open a function (cycle-boundary); store_fast with a nameable operand is emitted only "
+           "for names the statement introduces (fresh-cell); a declared name is read by supplies() (R-VISIT covers Import).",
+    "C08": "Also: code labels are generated, fixed literals, or spelled from names the parser refuses to see twice in a file (code-label; known finding).",
+    "C10": "Also: a field step or compound assignment on a module-typed object (an alias of an imported module) is const; postfix steps never clear the flag.",
+    "C11": "Also: the compile queue is drained to its end; the module path drops every non-naming feature the grammar lets an import spell (module-identity).",
+    "C13": "Also: hash() reads only what eq() compares and no shared cell's contents (hash-eq; list keys are a known finding); a list/map operation "
+           "mutably borrows its receiver only (effects-confined); hashable-key predicate vs the run-time Hash table; index dispatch; fresh results.",
+    "C14": "Also: the float-to-int range guards of to_int / to_bigint; strip-once; index unit of s[i] (known finding).",
+    "C16": "Also: index / surplus-argument accesses in builders; borrow discipline of RefCell guards.",
+    "C17": "Also: from_str_radix radix range; container taint for indexing program lists; frames held during a call; borrow discipline.",
+    "C18": "Also: the index unit of the transpiler's split (char vs byte).",
+}
+for _pid, _t in ADDED.items():
+    if _pid in CLAIMED and _t not in CLAIMED[_pid]["text"]:
+        CLAIMED[_pid]["text"] = CLAIMED[_pid]["text"].rstrip() + " " + _t
+
 NOT_APPLICABLE = {
 }
 
